@@ -7,8 +7,8 @@ META = {'assumptions': ["ast.literal_eval and str() of containers/floats are CPy
                         "literal value and the str() text to the model; the theorems hold for every such function"]}
 
 KEYS = ['a', 'b', 'c', 'd']
-SCALARS = ['x', 'y', '7', 'True', 'None', '', 7, 0, -3, True, False, None, 1.5, 'x.y']
-LITERALS = ["'x'", '"x"', "'7'", '7', '-3', '0', '1.5', 'True', 'False', 'None', "'True'", '"a b"'.replace(' ', '_'),
+SCALARS = ['x', 'y', '7', 'True', 'None', '', 7, 0, -3, True, False, None, 1.5, 'x.y', 1, 1.0, 0.0, -0.0, '1', '1.0', '0.0']
+LITERALS = ['1', '1.0', '0.0', '-0.0', "'1'", "'",  '"', "'x'", '"x"', "'7'", '7', '-3', '0', '1.5', 'True', 'False', 'None', "'True'", '"a b"'.replace(' ', '_'),
             "'%s'" % 'y', '1e3', '0x10', "''", '"x.y"', '[1, 2]', '(1,)', '{1, 2}']
 
 
